@@ -20,7 +20,8 @@ MANIFEST = {
 }
 
 THEOREMS = ["C17_host_off_identity", "C17_host_pure_rule", "C17_host_emit_normal_unchanged",
-            "C17_host_combined_dropped_with_warning", "C17_host_spaced_not_converted", "C17_host_comment_still_host", "C17_host_classification"]
+            "C17_host_combined_dropped_with_warning", "C17_host_spaced_not_converted", "C17_host_comment_still_host", "C17_host_classification",
+            "C17_host_rule_low_identifiers", "C17_other_rules_leave_low_output", "C17_low_exact_sheet", "C17_low_shape_exact_sheet", "C17_host_off_nothing_moved", "C17_rule_feeds_exactly_one_stream"]
 
 
 def run(res):
